@@ -372,6 +372,15 @@ func poolKV(r *rand.Rand, sizes []int) string {
 	return fmt.Sprintf("sc=%d", pick(r, sizes))
 }
 
+// dirtyKV: every other grpc/json case runs with a provider whose ammo pool already holds used objects (dirty=<k>): what
+// sync.Pool hands out — a new object or any used one — must make no difference to what a line is delivered as.
+func dirtyKV(r *rand.Rand) string {
+	if r.Intn(2) == 0 {
+		return ""
+	}
+	return fmt.Sprintf(" dirty=%d", pick(r, []int{4, 16, 64}))
+}
+
 func genJSON(r *rand.Rand) string {
 	n := pick(r, []int{1, 1, 2, 4})
 	k := 1 + r.Intn(8)
@@ -380,7 +389,7 @@ func genJSON(r *rand.Rand) string {
 		es[i] = genEntry(r, i)
 	}
 	prov, es, _ := provKV(r, es, false)
-	return fmt.Sprintf("mode=json n=%d %s %s%s%s oe=%d e=%s", n, poolKV(r, []int{0, 0, 1, 2}), tmoKV(r), netKV(r), prov, r.Intn(2), strings.Join(es, ";"))
+	return fmt.Sprintf("mode=json n=%d %s %s%s%s%s oe=%d e=%s", n, poolKV(r, []int{0, 0, 1, 2}), tmoKV(r), netKV(r), prov, dirtyKV(r), r.Intn(2), strings.Join(es, ";"))
 }
 
 // genJSONSched: the same entries fired by hand, entry k by instance sched[k] (exact per-entry trace, connections).
@@ -400,7 +409,7 @@ func genJSONSched(r *rand.Rand) string {
 	if shots > 40 {
 		shots = 40
 	}
-	return fmt.Sprintf("mode=json run=sched n=%d %s %s%s%s oe=%d sched=%s e=%s", n, poolKV(r, []int{0, 0, 1, 2, 3, 7}), tmoKV(r), netKV(r), prov,
+	return fmt.Sprintf("mode=json run=sched n=%d %s %s%s%s%s oe=%d sched=%s e=%s", n, poolKV(r, []int{0, 0, 1, 2, 3, 7}), tmoKV(r), netKV(r), prov, dirtyKV(r),
 		r.Intn(2), schedFor(r, n, shots), strings.Join(es, ";"))
 }
 
@@ -441,7 +450,7 @@ func genJSONLong(r *rand.Rand, sched bool) string {
 	}
 	n := pick(r, []int{1, 2, 4})
 	if sched {
-		return fmt.Sprintf("mode=json run=sched n=%d sc=%d tmo=0 oe=1%s sched=%s e=%s", n, pick(r, []int{0, 2}), prov, schedFor(r, n, shots), strings.Join(es, ";"))
+		return fmt.Sprintf("mode=json run=sched n=%d sc=%d tmo=0 oe=1%s%s sched=%s e=%s", n, pick(r, []int{0, 2}), prov, dirtyKV(r), schedFor(r, n, shots), strings.Join(es, ";"))
 	}
 	return fmt.Sprintf("mode=json n=%d sc=%d tmo=0 oe=1%s e=%s", n, pick(r, []int{0, 2}), prov, strings.Join(es, ";"))
 }
@@ -682,6 +691,11 @@ func genScen(r *rand.Rand, engine bool) string {
 			calls = append(calls[:pos], append([]string{shadow}, calls[pos:]...)...)
 		}
 	}
+	// tags as people write them: categories shared by several calls, or none at all (a tag names the samples of a call, it
+	// identifies nothing: two calls of one scenario with the same or an empty tag are still two calls)
+	if r.Intn(3) == 0 {
+		calls = withWrittenTags(r, calls)
+	}
 	// the way the users file is written (same users)
 	csv := ""
 	if r.Intn(3) == 0 {
@@ -707,6 +721,62 @@ func genScen(r *rand.Rand, engine bool) string {
 		sched[i] = byte('0' + r.Intn(n))
 	}
 	return strings.Replace(base, "@RUN@", "sched", 1) + " sched=" + string(sched)
+}
+
+// withWrittenTags gives every call, with probability 2/3, a written tag (seventh field T<text>) from a small set that
+// contains the empty tag; the others keep the default t<name>.
+func withWrittenTags(r *rand.Rand, calls []string) []string {
+	out := make([]string, len(calls))
+	for i, c := range calls {
+		out[i] = c
+		if r.Intn(3) == 0 {
+			continue
+		}
+		out[i] = callWithTag(c, pick(r, []string{"", "", "same", "t", "case~1"}))
+	}
+	return out
+}
+
+// callWithTag appends the tag field (the seventh) to a call text of five or six fields.
+func callWithTag(c, encTag string) string {
+	for strings.Count(c, "|") < 5 {
+		c += "|"
+	}
+	return c + "|T" + encTag
+}
+
+// genScenTags: one scenario whose steps are two or three DIFFERENT calls carrying the same tag (or none), with different
+// payload and metadata templates under the same metadata keys, shot several times by the same gun: whatever a gun keeps
+// per step (parsed templates …) must be kept per call, not per tag.
+func genScenTags(r *rand.Rand, engine bool) string {
+	tag := pick(r, []string{"", "", "same", "t", c20lib.Enc(randText(r, 4, "abcxyz _"))})
+	k := 2 + r.Intn(2)
+	marks := []string{"one", "two", "three"}
+	var calls, reqs []string
+	for i := 0; i < k; i++ {
+		name := "c" + strconv.Itoa(i)
+		md := "x-k:" + marks[i] + "-{G}-{U},x-w:" + marks[i]
+		if r.Intn(3) == 0 {
+			md = "x-k:" + marks[i] + "~{U}"
+		}
+		t := tag
+		if i == k-1 && r.Intn(3) == 0 {
+			t = pick(r, []string{"", "other"}) // the last call sometimes has a tag of its own
+		}
+		calls = append(calls, callWithTag(name+"|"+svc+"Hello|"+spell(r, md)+"|"+spell(r, "name:s."+marks[i]+".{U}")+"|"+pick(r, []string{"u", "u", "-"}), t))
+		reqs = append(reqs, name)
+	}
+	if r.Intn(2) == 0 {
+		reqs = append(reqs, "c0", "c1")
+	}
+	r.Shuffle(len(reqs), func(a, b int) { reqs[a], reqs[b] = reqs[b], reqs[a] })
+	n := pick(r, []int{1, 1, 2})
+	base := fmt.Sprintf("mode=scen run=@RUN@ n=%d tmo=0 users=1,2,3 g=%s calls=%s scns=s:1:%s", n, c20lib.Enc(randText(r, 4, "ghijkl")),
+		strings.Join(calls, ";"), strings.Join(reqs, "+"))
+	if engine {
+		return strings.Replace(base, "@RUN@", "engine", 1) + fmt.Sprintf(" shots=%d", 4+r.Intn(8))
+	}
+	return strings.Replace(base, "@RUN@", "sched", 1) + " sched=" + schedFor(r, n, 2+r.Intn(4))
 }
 
 // genScenCollide: names chosen so that "<scenario>_<call>" of one step equals that of another step with different
@@ -936,6 +1006,14 @@ func gen(r *rand.Rand, tier string) []string {
 	}
 	for i := 0; i < ne; i++ {
 		out = append(out, genScen(r, true))
+	}
+	// round 6: calls sharing a tag / without a tag (appended last: the inputs generated above stay what they were)
+	ntag := 8
+	if tier == "thorough" {
+		ntag = 300
+	}
+	for i := 0; i < ntag; i++ {
+		out = append(out, genScenTags(r, i%8 == 7))
 	}
 	return out
 }
